@@ -121,10 +121,13 @@ Definition truthy (o : option N) : bool :=
   match o with Some n => negb (n =? 0) | None => false end.
 Definition b2n (b : bool) : N := if b then 1 else 0.
 
+(* `x is not None` *)
+Definition isset (o : option N) : bool := match o with Some _ => true | None => false end.
+
 Definition fsize (c : fctx) : N :=
-  let p := b2n (fbold c) + b2n (frev c) + b2n (ful c) + b2n (truthy (fg c)) + b2n (truthy (bg c)) in
-  let p := if truthy (fg c) && truthy (bg c) then p + gen.T12.SIZE_BOTH
-           else if truthy (fg c) || truthy (bg c) then p + gen.T12.SIZE_ONE else p in
+  let p := b2n (fbold c) + b2n (frev c) + b2n (ful c) + b2n (isset (fg c)) + b2n (isset (bg c)) in
+  let p := if isset (bg c) then p + gen.T12.SIZE_BOTH
+           else if isset (fg c) then p + gen.T12.SIZE_ONE else p in
   if p =? 0 then 0 else p + 1.
 
 (* str(n) and str(n).zfill(2) for colour numbers (< 16 by getInt) *)
@@ -156,10 +159,12 @@ Fixpoint digit_lookup (t : list (N * N)) (c : N) : option N :=
   | [] => None
   | (k, v) :: t' => if c =? k then Some v else digit_lookup t' c
   end.
-(* c.isdigit() -> Some (int(c)), 99 standing for "int(c) raises ValueError" *)
+(* `c and c in string.digits` -> Some (int(c)) *)
 Definition digit_val (c : N) : option N :=
-  if c <? 128 then (if (48 <=? c) && (c <=? 57) then Some (c - 48) else None)
-  else digit_lookup gen.T12.DIGITS c.
+  if (48 <=? c) && (c <=? 57) then Some (c - 48) else None.
+(* \d of a str regex: c.isdigit() and int(c) works (table regenerated from CPython) *)
+Definition udigit_val (c : N) : option N :=
+  if c <? 128 then digit_val c else digit_lookup gen.T12.DIGITS c.
 
 Fixpoint getInt (i : N) (setI : bool) (s : str) : res (option N * str) :=
   let ret := if setI then Some i else None in
@@ -169,9 +174,8 @@ Fixpoint getInt (i : N) (setI : bool) (s : str) : res (option N * str) :=
       match digit_val c with
       | None => Ok (ret, s)
       | Some v =>
-          if v =? 99 then Raise ValueError
-          else let j := i * 10 + v in
-               if gen.T12.COLOR_LIMIT <=? j then Ok (ret, s) else getInt j true s'
+          let j := i * 10 + v in
+          if gen.T12.COLOR_LIMIT <=? j then Ok (ret, s) else getInt j true s'
       end
   end.
 
@@ -179,10 +183,12 @@ Definition getColor (c : fctx) (s : str) : res (fctx * str) :=
   do r <- getInt 0 false s;
   let c1 := FC (fst r) (bg c) (fbold c) (frev c) (ful c) in
   match snd r with
-  | 44 :: s2 =>
-      do r2 <- getInt 0 false s2;
-      Ok (FC (fg c1) (fst r2) (fbold c1) (frev c1) (ful c1), snd r2)
-  | s1 => Ok (c1, s1)
+  | x :: s2 =>
+      if x =? 44 then
+        do r2 <- getInt 0 false s2;
+        Ok (FC (fg c1) (fst r2) (fbold c1) (frev c1) (ful c1), snd r2)
+      else Ok (c1, snd r)
+  | [] => Ok (c1, [])
   end.
 
 (* parse(): returns the final context and max_context_size *)
@@ -234,7 +240,7 @@ Definition wrap (s : str) (length : Z) : res (list str) := wrap_w (split_chunks 
    sequences \x03 [d[d]] [, d[d]] (ASCII digits, greedy), bold, reverse,
    underline, italic, reset.  Used by the visible-text clause. *)
 Definition is_d (c : N) : bool :=      (* \d of a str pattern: Unicode decimal digits *)
-  match digit_val c with Some v => negb (v =? 99) | None => false end.
+  match udigit_val c with Some v => negb (v =? 99) | None => false end.
 Definition eat2 (s : str) : str :=
   match s with
   | a :: b :: r => if is_d a then (if is_d b then r else b :: r) else s
@@ -346,9 +352,10 @@ Definition slice_to (s : str) (n : Z) : str :=
 
 Definition allowed_length (k : cfg) : Z :=
   if c_length k =? 0 then
+    (* byteLength; recipient = msg.nick when the command came in a query *)
     (Z.of_N gen.T12.LINE_MAX - Z.of_N gen.T12.FIXED_OVERHEAD
-     - Z.of_N (slen (c_prefix k)) - Z.of_N (slen (c_arg0 k))
-     - (if c_prefixNick k then Z.of_N (slen (c_nick k)) + Z.of_N (slen gen.T12.NICK_SEP) else 0))%Z
+     - Z.of_N (blen (c_prefix k)) - Z.of_N (blen (if c_public k then c_arg0 k else c_nick k))
+     - (if c_prefixNick k then Z.of_N (blen (c_nick k)) + Z.of_N (slen gen.T12.NICK_SEP) else 0))%Z
   else Z.of_N (c_length k).
 
 (* result: (messages sent now, in order; the _mores list in Python order) *)
@@ -380,10 +387,11 @@ Fixpoint mores_go (times : nat) (L : list str) (number : N) : list (list str) :=
   | S t => let (sent, L') := more L number in sent :: mores_go t L' number
   end.
 
-(* Irc._truncateMsg as applied by takeMsg (untagged message): characters, not bytes *)
+(* Irc._truncateMsg as applied by takeMsg (untagged message): measured in UTF-8 bytes; the cut
+   bytes[:MAX-2].decode('utf-8', 'ignore') keeps the characters that lie wholly within MAX-2 bytes *)
 Definition truncate_msg (line : str) : str :=
-  if gen.T12.IRCLIB_MAX_LINE_SIZE <? slen line
-  then firstn (N.to_nat (gen.T12.IRCLIB_MAX_LINE_SIZE - 2)) line ++ [13; 10] else line.
+  if gen.T12.IRCLIB_MAX_LINE_SIZE <? blen line
+  then fst (take_bytes (gen.T12.IRCLIB_MAX_LINE_SIZE - 2) line) ++ [13; 10] else line.
 
 (* what takeMsg() hands to the driver for the command and each following more *)
 Definition session (k : cfg) (s : str) (number : N) (times : nat) : res (list (list str)) :=
